@@ -36,6 +36,7 @@ class Opts(object):
         self.except_as = True
         self.jump_in_handler_finally = False   # known-finding shape (C05), separate stream
         self.finally_prob = 0.5
+        self.lambda_closures = False  # `h = lambda: T(k, x)` stored and called later (closure variables read late)
         self.raising_return = False   # `return o.missing`: evaluating the return value raises AttributeError (needs mutation=True)
         self.rich_finally = False  # compound statements (loops with their own break/continue, nested try) in finally bodies
         self.aug = True
@@ -61,6 +62,7 @@ class Gen(object):
         self.o = opts
         self.k = 0
         self.budget = opts.max_stmts
+        self.lams = []
         self.lines = []
         self.vars = list(opts.names) if opts.names else VARS
 
@@ -75,6 +77,7 @@ class Gen(object):
         if self.o.reads == 'none':
             return []
         pool = sorted(defined) if self.o.reads == 'safe' else sorted(set(defined) | set(self.vars))
+        pool = [v for v in pool if v not in self.lams]      # lambda objects are called, never passed on (their repr is an address)
         if not pool:
             return []
         n = self.r.randint(0, min(maxn, len(pool)))
@@ -92,7 +95,7 @@ class Gen(object):
             if o.boolops and c < 0.25:
                 return '(%s if %s else %s)' % (self.texpr(defined, depth + 1), self.dexpr(defined), self.texpr(defined, depth + 1))
             if o.boolops and c < 0.30 and defined:
-                return '(%s %s %s)' % (r.choice(sorted(defined)), r.choice(['==', '!=', '<', '+', '-', '*']), self.texpr(defined, depth + 1))
+                return '(%s %s %s)' % (r.choice([v for v in sorted(defined) if v not in self.lams]), r.choice(['==', '!=', '<', '+', '-', '*']), self.texpr(defined, depth + 1))
             if o.boolops and c < 0.34:
                 # comparison chain whose middle operands have side effects (each must be evaluated once)
                 ops = [r.choice(['<', '<=', '==', '!=', '>', '>=']) for _ in range(r.randint(2, 3))]
@@ -155,6 +158,8 @@ class Gen(object):
                 choices += ['klass']
         if o.delete and defined:
             choices += ['del']
+        if o.lambda_closures:
+            choices += ['lam'] + (['lamcall'] * 2 if [h for h in self.lams if h in defined] else [])
         if o.mutation:
             choices += ['attr', 'sub'] + (['append'] if o.append else [])
         if o.global_:
@@ -171,6 +176,15 @@ class Gen(object):
         if c == 'append':
             self.emit(ind, 'm.append(%s)' % self.texpr(defined))
             return defined, True
+        if c == 'lam':
+            h = 'h%d' % self.key()
+            rd = self.reads(defined) or sorted(defined)[:1]
+            self.emit(ind, '%s = lambda: T(%d%s)' % (h, self.key(), ''.join(', ' + v for v in rd)))
+            self.lams.append(h)
+            return defined | {h}, True
+        if c == 'lamcall':
+            self.emit(ind, 'T(%d, %s())' % (self.key(), r.choice([h for h in self.lams if h in defined])))
+            return defined, True
         if c == 'retattr':
             self.emit(ind, 'return o.missing%d' % self.key())
             return defined, False
@@ -185,7 +199,7 @@ class Gen(object):
             self.emit(ind, '%s = %s' % (v, self.texpr(defined)))
             return defined | {v}, True
         if c == 'aug':
-            v = r.choice(sorted(defined)) if o.reads != 'any' else r.choice(sorted(set(defined) | set(self.vars)))
+            v = r.choice([x for x in sorted(defined) if x not in self.lams]) if o.reads != 'any' else r.choice(sorted(set(defined) | set(self.vars)))
             self.emit(ind, '%s += %s' % (v, self.texpr(defined)))
             return defined | {v}, True
         if c == 'tuple':
@@ -196,7 +210,7 @@ class Gen(object):
             self.emit(ind, self.texpr(defined))
             return defined, True
         if c == 'del':
-            cands = sorted(defined - set(PARAMS)) or sorted(defined)
+            cands = sorted(defined - set(PARAMS) - set(self.lams)) or sorted(defined - set(self.lams)) or sorted(defined)
             v = r.choice(cands)
             k = r.random()
             if o.mutation and k < 0.3:
